@@ -12,7 +12,8 @@ TECHNIQUE = "property-based testing (Hypothesis): validity predicates (truthful 
 LEVEL_TEXT = (
     "Generated constraints g(x) = J0 x + c + eps * quadratic(x) with 1..D-1 rows on D <= 10 variables (affine: eps = 0; mildly nonlinear: "
     "eps <= 0.1), means, covariance factors that are well conditioned, rank deficient or zero - constructed so that the constraint is "
-    "attainable inside mean + range(L) - tolerances 1e-12..1e-4 and iteration budgets 1..50. Checked: iters <= budget; reported final "
+    "attainable inside mean + range(L) - tolerances 1e-12..1e-4, iteration budgets 1..50, and starting points at the mean (as the library's own "
+    "callers do), near it, far from it, or already feasible. Checked: iters <= budget; reported final "
     "constraint and increment are the recomputed ones; the exit status is truthful; the displacement from the mean lies in "
     "range(L L^T J(x_prev)^T) (first-order optimality up to the last increment); affine constraints give the Gaussian conditional mean "
     "after one iteration; used as linearisation point the routine makes one dense filter update exact for affine constraints."
@@ -23,7 +24,7 @@ RULE = (
     "nonlinear constraint needing >= 2 iterations, or a singular covariance factor; distinct by JSON hash"
 )
 ASSUMPTIONS = ["x64; lstsq_svd inner solver (default)"]
-REQUIRED_LABELS = ["affine", "nonlinear", "singular", "iters>=2", "budget_exhausted", "mode:filter_update"]
+REQUIRED_LABELS = ["affine", "nonlinear", "singular", "iters>=2", "budget_exhausted", "mode:filter_update", "x0:far", "x0:feasible", "x0:near"]
 
 
 @st.composite
@@ -38,7 +39,9 @@ def _case(draw):
                 mean=draw(gen.vec(D, gen.quarter(-8, 8))), L=draw(gen.mat(D, D, gen.quarter(-4, 4))), mask=draw(gen.vec(D, st.integers(0, 1))),
                 decades=draw(gen.vec(D, st.integers(-5, 0))), z=draw(gen.vec(D, gen.quarter(-6, 6))),
                 log_tol=draw(gen.exponent(-12.0, -4.0)), maxiter=draw(st.sampled_from([1, 1, 2, 3, 5, 10, 50])),
-                mode=draw(st.sampled_from(["direct", "direct", "direct", "filter_update"])))
+                mode=draw(st.sampled_from(["direct", "direct", "direct", "filter_update"])),
+                # starting point of the iteration: the mean (what the library's own callers pass), or a warm start elsewhere
+                x0_mode=draw(st.sampled_from(["mean", "mean", "near", "far", "feasible"])), x0_dir=draw(gen.vec(D, gen.quarter(-8, 8))))
 
 
 def strategy(ctx):
@@ -109,7 +112,11 @@ def check_case(case):
 
     with common.lib_call("lstsq_constrained_gauss_newton"):
         solver = pd.lstsq_constrained_gauss_newton(maxiter=maxiter, tol=tol)
-        x, stats = solver(g, jnp.asarray(m), jnp.asarray(m), jnp.asarray(L))
+        x0_mode = case.get("x0_mode", "mean")
+        x0 = {"mean": m, "near": m + 1e-3 * np.asarray(case.get("x0_dir", m), float), "far": m + np.asarray(case.get("x0_dir", m), float),
+              "feasible": xstar}[x0_mode]
+        res.label(f"x0:{x0_mode}")
+        x, stats = solver(g, jnp.asarray(x0), jnp.asarray(m), jnp.asarray(L))
         x = np.asarray(x, float)
         iters = int(stats["iters"])
         fin_c = np.asarray(stats["final_constraint"], float)
@@ -137,10 +144,10 @@ def check_case(case):
     if not (feasible or converged or exhausted):
         res.violate("exit:untruthful", f"stopped after {iters} < {maxiter} iterations with rms(constraint)={rms(gx):.2e}, rms(increment)={rms(fin_dx):.2e} > tol={tol:.1e}")
     if iters == 0:
-        # never iterated: only legitimate if the mean already satisfies the constraint (or maxiter = 0)
-        if not rms(g_np(m)) <= tol:
-            res.violate("exit:no_iteration", "no iteration although the constraint is violated at the start")
-        if not np.array_equal(x, m):
+        # never iterated: only legitimate if the starting point already satisfies the constraint (or maxiter = 0)
+        if not rms(g_np(x0)) <= tol:
+            res.violate("exit:no_iteration", "no iteration although the constraint is violated at the starting point")
+        if not np.array_equal(x, x0):
             res.violate("exit:moved_without_iteration", "point moved although no iteration was reported")
         return res
     # reported increment is the last one: x_prev = x - dx must be consistent with one Gauss-Newton step
